@@ -247,9 +247,9 @@ PROPS = {
         "harness_modes": ["crosscheck"],
         "contract_module": "C11",
         "depends": [("C14", ["Hardware.satisfies", "Hardware.__sub__", "Hardware.__add__", "Hardware.normalized", "Hardware._normalize_storage", "_reduce_storages"]),
-                    ("HW", ["Hardware.get_storage", "Hardware.get_mount_point"])],
+                    ("HW", ["Hardware.get_storage", "Hardware.get_mount_point", "DefaultScheduler._is_valid"])],
         "ignore_known_clauses": True,
-        "explanation": "Fragment. Hardware.get_storage / get_mount_point (the lookups that decide on WHICH storage of a location a job directory is booked) are proved to return "
+        "explanation": "Fragment. DefaultScheduler._is_valid (the capacity check) is proved to accept a location only if the location itself has room for the requirement computed for it — what is left after the reservations satisfies it, ALSO when nothing is reserved there yet, or fewer occupying jobs than slots — and, when it is stacked on another location, only if that one has room too; and to accept a non-stacked location that has room (Hardware.__sub__ / satisfies enter as the spec functions proved in C14; deeper stack levels are checked by the same loop body but the contract speaks of the first two). Hardware.get_storage / get_mount_point (the lookups that decide on WHICH storage of a location a job directory is booked) are proved to return "
         "the first storage whose mount point is the path or that the path was resolved to before, and to raise KeyError otherwise (a path merely beneath a mount point must be "
         "resolved on the location: a deeper volume may be mounted in between). "
         "With a ghost flag `reserved` per job allocation (set when _allocate_job charges the job, cleared by _free_resources, both assumed), "
